@@ -329,6 +329,13 @@ class Ctx:
         h = hashlib.md5(tag.encode()).hexdigest()[:10]
         return os.path.join(d, f"{self.pid}-{h}.json")
 
+    def seen(self, signature):
+        """already recorded in this run (as a violation or a known finding)?"""
+        if any(s == signature for s, *_ in self.violations) or any(s == signature for s, _ in self.known_hits):
+            self.cov["repeat_hits"] = self.cov.get("repeat_hits", 0) + 1
+            return True
+        return False
+
     def violation(self, signature, what, replay_obj, found_input=True):
         """Record a violation.  signature identifies the specific failing input/call site."""
         for k in load_known():
@@ -461,7 +468,7 @@ def coq_eval_values(ctx, stream, imports, defs, exprs, kind="oqc", shard=150, ti
         fn = os.path.join(d, f"vals_{k // shard}.v")
         text = "\n".join(chunk)
         with open(fn, "w") as f:
-            f.write(imports + "\nFrom Coq Require Import ZArith QArith Qcanon List.\nImport ListNotations.\n")
+            f.write("From Coq Require Import ZArith QArith Qcanon List.\nImport ListNotations.\n" + imports + "\n")
             for name, body in defs:
                 if re.search(r"\b" + re.escape(name) + r"\b", text):
                     f.write(body + "\n")
